@@ -19,6 +19,9 @@ func (l *UnwrapAggPlanner) Process(ctx *shared.PlannerContext,
 
 func (l *UnwrapAggPlanner) addValue(ctx *shared.PlannerContext, entry *shared.LogEntry, stream *aggOpStream) {
 	idx := (entry.TimestampNS - ctx.From.UnixNano()) / l.Duration.Nanoseconds() * 2
+	if idx < 0 || idx+1 >= int64(len(stream.values)) {
+		return
+	}
 	switch l.Function {
 	case "rate":
 		stream.values[idx] += entry.Value
